@@ -173,6 +173,7 @@ func genExtraHosts(g *gen) {
 		hs := distinct(r, hosts, 1+r.Intn(3))
 		long := m{} // mapping host -> [ip]
 		simple := m{}
+		longBr, simpleBr := m{}, m{} // the same with a v6 address in brackets
 		var eq, colon, bracketEq l
 		hasV6 := false
 		var texts []string
@@ -191,9 +192,13 @@ func genExtraHosts(g *gen) {
 			if v6 {
 				colon = append(colon, h+":["+ip+"]")
 				bracketEq = append(bracketEq, h+"=["+ip+"]")
+				longBr[h] = l{"[" + ip + "]"}
+				simpleBr[h] = "[" + ip + "]"
 			} else {
 				colon = append(colon, h+":"+ip)
 				bracketEq = append(bracketEq, h+"="+ip)
+				longBr[h] = l{ip}
+				simpleBr[h] = ip
 			}
 			texts = append(texts, h+"="+ip)
 		}
@@ -206,7 +211,9 @@ func genExtraHosts(g *gen) {
 		cls := "v4"
 		if hasV6 {
 			cls = "v6"
-			docs = append(docs, spelled{Name: "list-equals-bracketed", Text: joinAny(bracketEq), YAML: p.doc(bracketEq)})
+			docs = append(docs, spelled{Name: "list-equals-bracketed", Text: joinAny(bracketEq), YAML: p.doc(bracketEq)},
+				spelled{Name: "mapping-bracketed", Text: joinAny(bracketEq), YAML: p.doc(simpleBr)},
+				spelled{Name: "mapping-of-lists-bracketed", Text: joinAny(bracketEq), YAML: p.doc(longBr)})
 		}
 		g.emit(pcase{Position: p.name, Class: cls, Mode: "pair", Docs: docs})
 	}
